@@ -123,15 +123,75 @@ pub struct Engine {
     pub accs: AccTable,
     /// message of the last verification error (informational; never compared)
     pub last_err: String,
+    /// the prover-model case of the last build (with the implementation's outcome), for families that emit it
+    pub last_present: Option<(Value, Value)>,
 }
 
 impl Engine {
     pub fn new(cast: Cast) -> Engine {
-        Engine { cast, uid: 0, session: 0, accs: AccTable::default(), last_err: String::new() }
+        Engine { cast, uid: 0, session: 0, accs: AccTable::default(), last_err: String::new(), last_present: None }
     }
 
     fn states(&self, plan: &Plan) -> Vec<Option<CredentialRevocationState>> {
         plan.creds.iter().map(|cu| cu.state_list.and_then(|li| self.cast.rev_state(cu.held, li))).collect()
+    }
+
+    /// ghost of the revocation state passed for credential `ci` of the plan (`SymNrp`), if any
+    fn state_ghost(&mut self, plan: &Plan, states: &[Option<CredentialRevocationState>], ci: usize) -> Value {
+        let cu = &plan.creds[ci];
+        let h = &self.cast.creds[cu.held];
+        match (h.rev, cu.state_list, states[ci].as_ref()) {
+            (Some((ri, idx)), Some(li), Some(st)) => {
+                let acc = self.accs.id_of_state(st);
+                // from-scratch derivation is valid for issuance-by-default registries whose position 0 is untouched (C10 / F12)
+                let wit_ok = !self.cast.regs[ri].revoked_at(li, idx);
+                json!({"reg_key": self.cast.reg_key(ri), "idx": idx, "acc": acc, "wit_ok": wit_ok})
+            }
+            _ => Value::Null,
+        }
+    }
+
+    /// the `present_legacy` / `present_w3c` case of a plan (input of the prover model)
+    pub fn present_case(&mut self, plan: &Plan, req: &PresentationRequest, states: &[Option<CredentialRevocationState>], w3c: bool) -> Value {
+        let mut schemas: Vec<Value> = vec![];
+        for d in self.cast.w.defs.iter() {
+            if !schemas.iter().any(|x| x[0] == json!(d.sid.0)) {
+                schemas.push(json!([d.sid.0, d.schema.attr_names.0]));
+            }
+        }
+        let cred_defs: Vec<String> = self.cast.w.defs.iter().map(|d| d.cid.0.clone()).collect();
+        let mut sel = vec![];
+        for (ci, cu) in plan.creds.iter().enumerate() {
+            let rev_state = self.state_ghost(plan, states, ci);
+            let h = &self.cast.creds[cu.held];
+            let d = &self.cast.w.defs[h.def];
+            let ts = cu.state_list.map(RegHist::ts).or(cu.ts_only);
+            let mut attrs = vec![];
+            let mut preds = vec![];
+            for r in plan.refs.iter().filter(|r| r.cred == Some(ci)) {
+                match r.kind {
+                    Kind::Pred(..) => preds.push(json!(r.referent)),
+                    _ => attrs.push(json!([r.referent, r.revealed])),
+                }
+            }
+            let cred = if w3c {
+                let mut subject: Vec<Value> = h.w3c.credential_subject.0.iter().map(|(k, v)| {
+                    use anoncreds::data_types::w3c::credential_attributes::CredentialAttributeValue as V;
+                    json!([k, match v { V::String(s) => json!(s), V::Number(n) => json!(n), V::Bool(b) => json!(b) }])
+                }).collect();
+                subject.sort_by(|a, b| a[0].as_str().cmp(&b[0].as_str()));
+                json!({"issuer": h.w3c.issuer.0, "schema_id": d.sid.0, "cred_def_id": d.cid.0, "rev_reg_id": h.cred.rev_reg_id.as_ref().map(|r| r.0.clone()), "subject": subject, "sym": self.cast.ghost_cred(cu.held)})
+            } else {
+                let mut values: Vec<Value> = h.cred.values.0.iter().map(|(k, v)| json!([k, [v.raw, v.encoded]])).collect();
+                values.sort_by(|a, b| a[0].as_str().cmp(&b[0].as_str()));
+                json!({"schema_id": d.sid.0, "cred_def_id": d.cid.0, "rev_reg_id": h.cred.rev_reg_id.as_ref().map(|r| r.0.clone()), "values": values, "sym": self.cast.ghost_cred(cu.held)})
+            };
+            sel.push(json!({"cred": cred, "timestamp": ts, "rev_state": rev_state, "attrs": attrs, "preds": preds}));
+        }
+        let mut sa: Vec<Value> = plan.refs.iter().filter_map(|r| if let Kind::SelfAttested(_) = r.kind { Some(json!([r.referent, "self attested value"])) } else { None }).collect();
+        sa.sort_by(|a, b| a[0].as_str().cmp(&b[0].as_str()));
+        json!({"op": if w3c { "present_w3c" } else { "present_legacy" }, "pctx": {"schemas": schemas, "cred_defs": cred_defs}, "req": abs_req(req), "sel": sel,
+            "self_attested": sa, "holder": plan.holder, "session": self.session + 1, "uid0": self.uid + 1, "nt": true})
     }
 
     fn ghosts_for(&mut self, plan: &Plan, states: &[Option<CredentialRevocationState>], used: &[usize], nrp_built: &[bool]) -> (Vec<Value>, Value) {
@@ -141,17 +201,8 @@ impl Engine {
         for (k, ci) in used.iter().enumerate() {
             let cu = &plan.creds[*ci];
             self.uid += 1;
+            let nrp = if nrp_built[k] { self.state_ghost(plan, states, *ci) } else { Value::Null };
             let h = &self.cast.creds[cu.held];
-            let nrp = if nrp_built[k] {
-                let (ri, idx) = h.rev.unwrap();
-                let li = cu.state_list.unwrap();
-                let acc = states[*ci].as_ref().and_then(|s| self.accs.id_of_state(s));
-                // from-scratch derivation is valid for issuance-by-default registries whose position 0 is untouched (C10 / F12)
-                let wit_ok = !self.cast.regs[ri].revoked_at(li, idx);
-                json!({"reg_key": self.cast.reg_key(ri), "idx": idx, "acc": acc, "wit_ok": wit_ok})
-            } else {
-                Value::Null
-            };
             ghosts.push(json!({"cred": self.cast.ghost_cred(cu.held), "nrp": nrp, "ms": [h.holder, self.session], "intact": true, "uid": self.uid}));
             bound.push(json!([self.uid, nrp_built[k]]));
         }
@@ -162,6 +213,7 @@ impl Engine {
     pub fn build_legacy(&mut self, plan: &Plan) -> Result<Built, String> {
         let req: PresentationRequest = serde_json::from_value(plan.request_json()).map_err(|e| format!("request: {e}"))?;
         let states = self.states(plan);
+        let pcase = self.present_case(plan, &req, &states, false);
         let schemas = self.cast.w.schemas();
         let cred_defs = self.cast.w.cred_defs();
         let mut pc = PresentCredentials::default();
@@ -183,13 +235,24 @@ impl Engine {
         }
         let sa: HashMap<String, String> = plan.refs.iter().filter_map(|r| if let Kind::SelfAttested(_) = r.kind { Some((r.referent.clone(), "self attested value".to_string())) } else { None }).collect();
         let sa = if sa.is_empty() { None } else { Some(sa) };
-        let p = prover::create_presentation(&req, pc, sa, &self.cast.holders[plan.holder], &schemas, &cred_defs).map_err(|e| format!("create_presentation: {e}"))?;
+        let p = match std::panic::catch_unwind(std::panic::AssertUnwindSafe(|| prover::create_presentation(&req, pc, sa, &self.cast.holders[plan.holder], &schemas, &cred_defs))) {
+            Ok(Ok(p)) => p,
+            Ok(Err(e)) => {
+                self.last_present = Some((pcase, json!({"err": true})));
+                return Err(format!("create_presentation: {e}"));
+            }
+            Err(_) => {
+                self.last_present = Some((pcase, json!({"err": true, "panic": true})));
+                return Err("create_presentation panicked".into());
+            }
+        };
         let pres = serde_json::to_value(&p).unwrap();
         let nrp_built: Vec<bool> = pres["proof"]["proofs"].as_array().unwrap().iter().map(|s| !s["non_revoc_proof"].is_null()).collect();
         if nrp_built.len() != used.len() {
             return Err("sub-proof count differs from used credentials".into());
         }
         let (ghosts, agg) = self.ghosts_for(plan, &states, &used, &nrp_built);
+        self.last_present = abs_pres_legacy(&pres, &ghosts, &agg).map(|a| (pcase, a));
         Ok(Built { req, pres, ghosts, agg })
     }
 
@@ -197,6 +260,7 @@ impl Engine {
     pub fn build_w3c(&mut self, plan: &Plan) -> Result<BuiltW3C, String> {
         let req: PresentationRequest = serde_json::from_value(plan.request_json()).map_err(|e| format!("request: {e}"))?;
         let states = self.states(plan);
+        let pcase = self.present_case(plan, &req, &states, true);
         let schemas = self.cast.w.schemas();
         let cred_defs = self.cast.w.cred_defs();
         let mut pc = PresentCredentials::default();
@@ -216,7 +280,17 @@ impl Engine {
                 used.push(ci);
             }
         }
-        let p = w3c::prover::create_presentation(&req, pc, &self.cast.holders[plan.holder], &schemas, &cred_defs, None).map_err(|e| format!("w3c create_presentation: {e}"))?;
+        let p = match std::panic::catch_unwind(std::panic::AssertUnwindSafe(|| w3c::prover::create_presentation(&req, pc, &self.cast.holders[plan.holder], &schemas, &cred_defs, None))) {
+            Ok(Ok(p)) => p,
+            Ok(Err(e)) => {
+                self.last_present = Some((pcase, json!({"err": true})));
+                return Err(format!("w3c create_presentation: {e}"));
+            }
+            Err(_) => {
+                self.last_present = Some((pcase, json!({"err": true, "panic": true})));
+                return Err("w3c create_presentation panicked".into());
+            }
+        };
         let mut nrp_built = vec![];
         for vc in &p.verifiable_credential {
             let pv = vc.get_credential_presentation_proof().map_err(|e| e.to_string())?;
@@ -227,6 +301,7 @@ impl Engine {
             return Err(format!("W3C presentation has {} credentials for {} used", nrp_built.len(), used.len()));
         }
         let (ghosts, agg) = self.ghosts_for(plan, &states, &used, &nrp_built);
+        self.last_present = abs_pres_w3c(&p, &ghosts, &agg, true).map(|a| (pcase, a));
         Ok(BuiltW3C { req, pres: p, ghosts, agg })
     }
 
@@ -473,8 +548,10 @@ pub fn gen_honest_plan(rng: &mut Rng, cast: &Cast, w3c: bool, with_rev: bool) ->
             }
             rp.non_revoked = nr;
             if rng.chance(1, 3) {
+                // value restrictions name the attribute: the legacy verifier keys its value map by the *requested* spelling,
+                // the W3C verifier by the credential's own spelling (F19) — an honest request uses the one its format understands
                 let revealed_pairs: Vec<(String, String)> = match (&rp.kind, rp.revealed) {
-                    (Kind::Single(n), true) => vec![(n.clone(), raw.clone())],
+                    (Kind::Single(n), true) => vec![(if w3c { name.clone() } else { n.clone() }, raw.clone())],
                     _ => vec![],
                 };
                 rp.restrictions = Some(true_restrictions(rng, cast, held, &revealed_pairs));
